@@ -61,7 +61,7 @@ CLAIMED = {
         "DESIGN.md §4 C20",
     ),
     "C10": (
-        "Stateful property testing with injected faults on the full hub (3 pairs incl. a cw20 leg, 3 vaults, pool router with generated 1- and 2-hop routes, collector, distributor, lair): generated histories create fee states (zero, <= 1000, above) in pairs through real swaps and in vaults through router flash loans sized so that the vault's protocol fee is 1 / 999 / 1000 / 1001 / a few hundred base units (or a fraction of the vault), change the take rate over {inactive, 0, 1e-18, 0.1, ~1, random} with/without a DAO address, add/remove routes, disable swaps on a pair (simulation passes, execution fails), de-register or drain pairs, donate to the collector, call ForwardFees from non-distributors, and create epochs. Each NewEpoch is judged against a conservation oracle: failure => whole world snapshot unchanged; success => pending fees of registered pairs collected (sub-threshold entries may stay) and every vault's pending fee 0, every non-distribution asset in the collector either untouched or fully swapped, router empty, DAO delta == floor(rate * forwarded balance) iff active and recorded in TakeRateHistory, distributor inflow == new epoch total - rolled-over remainder, collector's distribution-asset balance 0. A successful NewEpoch must not leave behind an asset that is above the aggregation threshold, listed by a registered pool or vault, routed and simulable (the swap step must then have been attempted, and a failed step undoes everything). NewEpoch is sent as a top-level message or from inside a router flash loan on one of the vaults (the vault may then owe exactly the enclosing loan's own protocol fee). One hub in eight carries eleven more registered pairs and eleven more registered vaults whose asset names sort first, so that the hub has more children than one default page of the factories' listings; one in twenty-five carries twenty-eight, i.e. 31 children per factory, one more than the page of 30 that ForwardFees asks for — the children beyond that page keep their fees on this tree (listed known finding forward-fees-single-page, matched only for a registered child outside the first 30 listing entries whose pending entry is unchanged) and the rest of the oracle goes on.",
+        "Stateful property testing with injected faults on the full hub (3 pairs incl. a cw20 leg, 3 vaults, pool router with generated 1- and 2-hop routes, collector, distributor, lair): generated histories create fee states (zero, <= 1000, above) in pairs through real swaps (incl. swaps sized by bisection over the Simulation query so that a pending fee lands exactly on 999 / 1000 / 1001) and in vaults through router flash loans sized so that the vault's protocol fee is 1 / 999 / 1000 / 1001 / a few hundred base units (or a fraction of the vault), change the take rate over {inactive, 0, 1e-18, 0.1, ~1, random} with/without a DAO address, add/remove routes, disable swaps on a pair (simulation passes, execution fails), de-register or drain pairs, donate to the collector, call ForwardFees from non-distributors, and create epochs. Each NewEpoch is judged against a conservation oracle: failure => whole world snapshot unchanged; success => pending fees of registered pairs collected (sub-threshold entries may stay) and every vault's pending fee 0, every non-distribution asset in the collector either untouched or fully swapped, router empty, DAO delta == floor(rate * forwarded balance) iff active and recorded in TakeRateHistory, distributor inflow == new epoch total - rolled-over remainder, collector's distribution-asset balance 0. A successful NewEpoch must not leave behind an asset that is above the aggregation threshold, listed by a registered pool or vault, routed and simulable (the swap step must then have been attempted, and a failed step undoes everything). NewEpoch is sent as a top-level message or from inside a router flash loan on one of the vaults (the vault may then owe exactly the enclosing loan's own protocol fee). One hub in eight carries eleven more registered pairs and eleven more registered vaults whose asset names sort first, so that the hub has more children than one default page of the factories' listings; one in twenty-five carries twenty-eight, i.e. 31 children per factory, one more than the page of 30 that ForwardFees asks for — the children beyond that page keep their fees on this tree (listed known finding forward-fees-single-page, matched only for a registered child outside the first 30 listing entries whose pending entry is unchanged) and the rest of the oracle goes on.",
         "Protocol fees charged by the aggregation's own swaps are read from swap events (claims validated by C07). Trios are not collected by ForwardFees and are not asserted. cw-multi-test as the chain.",
         "stateful property testing with fault injection and a conservation oracle",
         "DESIGN.md §4 C10",
